@@ -3,7 +3,7 @@ import numpy as np
 from hypothesis import strategies as st
 
 from ..core import check, lib, raises, Guard
-from ..lib import reset, gv, D, U, electrical_signal, optical_signal
+from ..lib import reset, shadow_gv, gv, D, U, electrical_signal, optical_signal
 from ..runner import Part
 from ..sigs import s_signal, s_gv, apply_gv, build, contract
 
@@ -101,6 +101,8 @@ def s_mzm(draw):
 
 def e_mzm(c):
     reset()
+    if c["x"]["nseed"] % 3 == 0:
+        shadow_gv()          # user attributes named Vpi, bias, loss_dB, ER_dB, pol, BW ... sit in gv
     x, m = build_field(c["x"])
     N = m.N
     u_arg, u = make_drive(c["u"], N)
@@ -142,6 +144,14 @@ def e_mzm(c):
         off = 1 if pol == "x" else 0
         check(not np.any(y.signal[off]) and (y.noise is None or not np.any(y.noise[off])), "unselected-polarisation-not-extinguished", pol)
     check(bool(np.all(np.abs(y.signal) <= np.sqrt(L) * np.abs(m.s) * (1 + 1e-12) + 1e-300)), "mzm-amplifies", "")
+    # documented defaults (bias=0, Vpi=5, no loss, ER 26 dB, pol 'x', no bandwidth limit) when the optional parameters are left out
+    yd = lib(D.MZM, x, u_arg)
+    thd = np.pi * u / (2 * 5.0)
+    wd = m.s * (np.cos(thd) + 1j * 10 ** (-26.0 / 20) * np.sin(thd))
+    if m.npol == 2:
+        wd = wd.copy()
+        wd[1] = 0
+    check(np.allclose(yd.signal, wd, rtol=1e-12, atol=1e-12 * scale * (1 + 1e-3 * float(np.max(np.abs(thd))))), "mzm-defaults!=documented", f"max err {np.max(np.abs(yd.signal - wd)):.3e} (custom gv attributes present: {c['x']['nseed'] % 3 == 0})")
     # 2*Vpi periodicity of the output power (drive shifted through the bias argument and through the drive itself)
     y2 = lib(D.MZM, x, u_arg, bias + 2 * Vpi, Vpi, loss_dB, ER, pol)
     check(np.allclose(np.abs(y2.signal) ** 2, np.abs(y.signal) ** 2, rtol=1e-9, atol=1e-9 * scale ** 2), "mzm-not-2Vpi-periodic", "")
@@ -220,6 +230,8 @@ def s_pm(draw):
 
 def e_pm(c):
     reset()
+    if c["x"]["nseed"] % 3 == 0:
+        shadow_gv()
     x, m = build_field(c["x"])
     N = m.N
     d = dict(c["u"])
@@ -246,6 +258,8 @@ def e_pm(c):
     check((y.noise is None) == (m.n is None), "noise-presence", f"input noise {c['x']['noise_kind']}, output noise {'None' if y.noise is None else 'present'}")
     if m.n is not None:
         check(np.allclose(y.noise, m.n * rot, rtol=1e-12, atol=1e-12 * max(float(np.max(np.abs(m.n))), 1e-300)), "pm-noise!=rotation", c["x"]["noise_kind"])
+    ydf = lib(D.PM, x, u_arg)           # documented default Vpi = 5 V
+    check(np.allclose(ydf.signal, m.s * np.exp(1j * np.pi * u / 5.0), rtol=1e-12, atol=1e-12 * scale * (1 + float(np.max(np.abs(u))))), "pm-default-Vpi!=5", "")
     tin = m.total
     tout = y.signal if y.noise is None else y.signal + y.noise
     check(np.allclose(np.abs(tout) ** 2, np.abs(tin) ** 2, rtol=1e-9, atol=1e-12 * scale ** 2), "pm-changes-instantaneous-power", "")
